@@ -266,7 +266,7 @@ def c14(tier, seed):
     res = Result("C14", tier, seed, "exploration")
     wd = workdir("C14")
     tr = os.path.join(wd, "conebarrier.ndjson")
-    cnt = 2000 if tier == "quick" else 60000
+    cnt = 2000 if tier == "quick" else 400000
     p = run_vh(["conebarrier", "--seed", seed, "--count", cnt, "--out", tr], timeout=4 * 3600)
     meta = json.loads(p.stdout.strip().splitlines()[-1])
     v = validate_trace("ConeBarrier.tla", "ConeBarrier.cfg", tr, nshards=10, boundary=lambda e: True)
